@@ -297,6 +297,13 @@ func (db *DB) exist(o Object) (ok bool, err error) {
 		return
 	}
 
+	// an object waiting to be written asynchronously does exist
+	if s.asyncWritesEnabled() {
+		if _, ok = db.asyncw.get(o); ok {
+			return
+		}
+	}
+
 	path = db.oPath(s, o)
 	stat, err := os.Stat(path)
 	if os.IsNotExist(err) {
